@@ -56,7 +56,8 @@ GroupsClauses ==
 Clauses == CASE Rec.fn = "tetra" -> TetraClauses
              [] Rec.fn = "paral" -> ParalClauses
              [] Rec.fn = "groups" -> GroupsClauses
-Report == \A n \in DOMAIN Clauses : Clauses[n] \/ PrintT(<<"BAD", i, n>>)
+(* the clause table is evaluated once per record (bound variable) *)
+Report == \A C \in {Clauses} : \A n \in DOMAIN C : C[n] \/ PrintT(<<"BAD", i, n>>)
 RecInit == i \in 1..Len(Recs)
 RecSpec == RecInit /\ [][UNCHANGED i]_i
 =============================================================================
